@@ -8,7 +8,9 @@
 //! Families: A small graphs over every number set, B full page trees with every reference
 //! placement, D references below up to 1000 (thorough 2000) levels of nested containers,
 //! H documents with a history (earlier renumbering, deletions, additions, saving, stale max_id)
-//! compared against the state right before the call, W hundreds to thousands of objects.
+//! compared against the state right before the call, W hundreds to thousands of objects,
+//! L alias objects (indirect objects whose whole value is a reference), arrays and scalars as
+//! whole objects - these carry no tag; their new ids are read off the references leading to them.
 use lopdf::{Bookmark, Dictionary, Document, Object, ObjectId, Stream};
 use serde_json::{json, Value};
 use std::collections::{BTreeMap, BTreeSet, HashMap};
@@ -1905,7 +1907,7 @@ const ALIAS_FEATURES: [(&str, &str); 16] = [
     ("chain", "catalog /Chain -> alias -> alias (-> alias) -> T, first page /Mid -> the second alias of the chain"),
     ("dangling", "catalog /AlD -> two aliases, each -> an id no object has (inside the new range / a stale generation)"),
     ("self", "catalog /AlS -> alias -> itself"),
-    ("scalars", "integer, string, name and null as whole objects, referenced from the catalog, the first page, T and the trailer; an alias -> the integer object"),
+    ("scalars", "integer, string, name, null, real and boolean as whole objects, referenced from the catalog, the first page, T, the stream dictionary (/Len) and the trailer; an alias -> the integer object"),
     ("bookmark", "catalog /Dest -> alias -> first page; the alias is a bookmark target"),
     ("kidsarr", "root /Kids -> alias -> array object holding the kid entries"),
     ("parent", "first page /Parent -> alias -> root Pages node"),
@@ -1957,7 +1959,7 @@ impl AliasSpec {
         add("chain", if self.chain >= 3 { &["a_c1", "a_c2", "a_c3"] } else { &["a_c1", "a_c2"] });
         add("dangling", &["a_d1", "a_d2"]);
         add("self", &["a_self"]);
-        add("scalars", &["int", "str", "nam", "nul", "a_int"]);
+        add("scalars", &["int", "str", "nam", "nul", "a_int", "rea", "boo"]);
         add("bookmark", &["a_bm"]);
         add("kidsarr", &["karr", "a_karr"]);
         add("parent", &["a_parent"]);
@@ -2014,7 +2016,7 @@ fn build_alias(spec: &AliasSpec, ids: &[ObjectId], dang: &[ObjectId]) -> AliasDo
         c.set("AlS", rf(id("a_self")));
     }
     if has("scalars") {
-        c.set("Sc", Object::Array(vec![rf(id("int")), rf(id("str")), rf(id("nam")), rf(id("nul")), rf(id("a_int")), rf(id("int"))]));
+        c.set("Sc", Object::Array(vec![rf(id("int")), rf(id("str")), rf(id("nam")), rf(id("nul")), rf(id("a_int")), rf(id("int")), rf(id("rea")), rf(id("boo"))]));
     }
     if has("bookmark") {
         c.set("Dest", Object::Array(vec![rf(id("a_bm")), name("Fit")]));
@@ -2072,7 +2074,11 @@ fn build_alias(spec: &AliasSpec, ids: &[ObjectId], dang: &[ObjectId]) -> AliasDo
         }
         put(&pname(i + 1), Object::Dictionary(d));
     }
-    put("strm", Object::Stream(Stream::new(dict(vec![("Tag", tag("strm")), ("Owner", rf(pages[0]))]), b"q Q".to_vec())));
+    let mut sd = dict(vec![("Tag", tag("strm")), ("Owner", rf(pages[0]))]);
+    if has("scalars") {
+        sd.set("Len", rf(id("int")));
+    }
+    put("strm", Object::Stream(Stream::new(sd, b"q Q".to_vec())));
     let mut t = dict(vec![("Tag", tag("t")), ("Back", rf(id("cat"))), ("Peer", rf(pages[k - 1]))]);
     if has("scalars") {
         t.set("Sc", Object::Array(vec![rf(id("int")), rf(id("nam"))]));
@@ -2120,6 +2126,8 @@ fn build_alias(spec: &AliasSpec, ids: &[ObjectId], dang: &[ObjectId]) -> AliasDo
         put("nam", name("N7008"));
         put("nul", Object::Null);
         put("a_int", rf(id("int")));
+        put("rea", Object::Real(1.5));
+        put("boo", Object::Boolean(true));
         doc.trailer.set("ScT", Object::Array(vec![rf(id("str")), rf(id("int"))]));
     }
     if has("bookmark") {
@@ -2284,7 +2292,12 @@ fn family_l(run: &Run, shv: &Shared) {
                 // bookmark lists: none, one on every target, and (alias or last target) with a nested child on the first page
                 let tg = &ad.targets;
                 let mut cfgs: Vec<Vec<Bm>> = vec![vec![]];
-                cfgs.extend(tg.iter().map(|x| vec![(*x, None)]));
+                if thorough {
+                    cfgs.extend(tg.iter().map(|x| vec![(*x, None)]));
+                } else {
+                    // quick: the alias targets (or, without one, the last page) only
+                    cfgs.extend(tg.iter().skip(if tg.len() > 2 { 2 } else { 1 }).map(|x| vec![(*x, None)]));
+                }
                 cfgs.push(vec![(*tg.last().unwrap(), None), (tg[0], Some(0))]);
                 for bms in &cfgs {
                     let out = run_case(&prep, bms, start);
@@ -2434,11 +2447,24 @@ fn main() {
          with >= 2 pages also: root Kids reversed through the public fields, alone, after get_pages, and after renumbering + get_pages. Family W \
          (many objects): 100, 255, 256, 257, 1000 (thorough: + 512, 1023, 1024, 1025, 4097) objects as a star (one array referencing all), a \
          reference chain closed to a ring, or a flat page tree whose page numbers decrease in page order x numbers (first, stride) in \
-         {(1,1),(3,1),(5,3)} with alternating generations x every start value, no bookmarks",
+         {(1,1),(3,1),(5,3)} with alternating generations x every start value, no bookmarks. Family L (alias objects = indirect objects whose whole \
+         value is a reference; arrays and scalars as whole objects): catalog, root Pages, 2 pages under the root or 3 pages (the last two under an \
+         intermediate node), content stream, tagged dictionary T, plus a set of 16 features (listed under alias_features: alias to a dictionary from \
+         the trailer; a dictionary reachable ONLY through an alias; alias to an array object; Contents through an alias; a Kids entry that is an alias \
+         of a page / of the intermediate node; alias chains of 2 and 3 with an entry into the middle; aliases to ids no object has; an alias to \
+         itself; integer/string/name/null/real/boolean objects referenced from several places and an alias to one; an alias of a page as bookmark \
+         target; Kids -> alias -> array object; Parent, Root, Pages through aliases; an unreferenced alias) - feature sets: none, all, every single one, \
+         all but one, every pair (thorough: every triple; 2 pages quick: without the pairs) x numbers dense from 1 / dense from 3 / sparse x roles in \
+         canonical order (aliases numbered above what they stand for) / reversed / a stride walk x page-number permutations (all when a page-related \
+         feature is present, else identity and reversal; thorough all) x generations none / alternating x every start value x dangling references \
+         and stale-generation references always present x bookmark lists: none, one on each of first page / last page / bookmark alias / alias kid \
+         (quick: only the alias targets, or the last page when there is none), and the last of these with a nested child on the first page",
     );
+    run.assume("objects without a tag (alias objects, arrays, scalars as whole objects) are allowed in any document: the new id of a reachable one is read off the reference that leads to it from an object whose counterpart is already known, and the content comparison then has to hold for the pair; unreachable ones are paired in ascending order within their generation. Every dictionary and stream still carries a unique /Tag");
+    run.assume("a Kids entry (or Root, Pages, Kids, Parent, Contents value) that names an alias object stands for the object at the end of the alias chain (ISO 32000-1 7.3.10); page order is compared on the Page dictionaries the yielded ids denote, so page_iter() may yield the entry's id or the page's own id");
     run.assume("family H compares the renumbering under test against the document state right before that call (objects, trailer, bookmark targets), not against the generated document; objects added by the history carry fresh tags");
     run.assume("deeply nested objects (family D) exist only in memory: lopdf's parser rejects nesting beyond its own limit, the statement is about Document values");
-    run.assume("domain: start >= 1, unique object numbers, well-formed page tree, bookmarks target existing objects; every object is a dictionary or stream with a unique integer /Tag (the tag is how the renaming is observed)");
+    run.assume("domain: start >= 1, unique object numbers, well-formed page tree (a page listed twice in Kids is outside it), bookmarks target existing objects; every dictionary or stream object carries a unique integer /Tag (the tag is how the renaming is observed)");
     run.assume("a reference that resolved to nothing may afterwards be any reference to a missing object, or null");
     run.assume("objects not reachable from the trailer are only required to be renumbered (number, generation), not to have their references renamed - the statement speaks of the trailer and what is reachable from it");
     let open: Vec<String> = std::fs::read_to_string(vharness::run::verif_root().join("known_findings.json"))
